@@ -163,8 +163,10 @@ class Vmap(Generic[R], GenerativeFunction[R]):
         def find_axis_size(axis: int | None, x: Any) -> int | None:
             """Find the size of the axis specified by `axis` for the argument `x`."""
             if axis is not None:
-                leaf = jax.tree_util.tree_leaves(x)[0]
-                return leaf.shape[axis]
+                leaves = jax.tree_util.tree_leaves(x)
+                # a mapped argument without array leaves (e.g. an empty tuple) has no axis size
+                if leaves:
+                    return leaves[0].shape[axis]
 
         # tree_map uses in_axes as a template. To have passed vmap validation, Any non-None entry
         # must bottom out in an array-shaped leaf, and all such leafs must have the same size for
